@@ -159,3 +159,28 @@ Qed.
 Theorem accepted_architecture_distills os tol s n cs :
   exists r, distill os tol s n (arch_layers (arch_run false (arch_new n) cs)) = Some r.
 Proof. unfold distill. apply distill_defined_iff. apply run_layers_ok. Qed.
+
+(* ---------------------------------------------------------------- split points (C18, at the level of the distilled trees) *)
+(* the tree distilled from the first k layers, composed with the tree distilled from the rest, denotes what the
+   tree distilled from the whole list denotes -- for oracles that are sound on every input *)
+Theorem distilled_split os1 os2 os tol s n d1 dout l1 l2 x :
+  layers_out_dim n l1 = Some d1 -> layers_out_dim d1 l2 = Some dout -> Forall layer_wf l1 -> Forall layer_wf l2 ->
+  (forall j z, osound (os1 j) z) -> (forall j z, osound (os2 j) z) -> (forall j z, osound (os j) z) -> length x = n ->
+  exists r1 r2 r, distill os1 tol s n l1 = Some r1 /\ distill os2 tol s d1 l2 = Some r2 /\
+                  distill os tol s n (l1 ++ l2) = Some r /\
+                  eval (compose (erase r1) (erase r2)) x = cev r x.
+Proof.
+  intros H1 H2 W1 W2 O1 O2 O Hx.
+  destruct (distill_faithful_total os1 tol s n d1 l1 x H1 W1 (fun j => O1 j x) Hx) as [r1 [E1 [[X1 C1] V1]]].
+  set (y := net_eval s l1 x) in *.
+  assert (Hy : length y = d1) by (unfold y; eapply net_eval_length; eauto).
+  destruct (distill_faithful_total os2 tol s d1 dout l2 y H2 W2 (fun j => O2 j y) Hy) as [r2 [E2 [[X2 C2] V2]]].
+  assert (H12 : layers_out_dim n (l1 ++ l2) = Some dout) by (rewrite layers_out_dim_app, H1; exact H2).
+  assert (W12 : Forall layer_wf (l1 ++ l2)) by (apply Forall_app; auto).
+  destruct (distill_faithful_total os tol s n dout (l1 ++ l2) x H12 W12 (fun j => O j x) Hx) as [r [E [[X C] V]]].
+  exists r1, r2, r. repeat split; auto.
+  destruct (cwf_erase_wf n d1 r1 C1) as [Wa [Oa _]]. destruct (cwf_erase_wf d1 dout r2 C2) as [Wb _].
+  rewrite (compose_eval n d1 (erase r1) (erase r2) x Wa Oa Wb).
+  rewrite <- (cev_erase n d1 r1 x C1), V1. cbn [obind].
+  rewrite <- (cev_erase d1 dout r2 y C2), V2, V. unfold y. rewrite net_eval_app. reflexivity.
+Qed.
